@@ -10,12 +10,16 @@ namespace Uds.Model
 /-- the subfunctions `check_subfunction_valid` lists as added in 2020 -/
 def subfunction2020 : List Nat := [0x17, 0x16, 0x18, 0x19, 0x1A, 0x42, 0x55, 0x56]
 
-/-- `ReadDTCInformation.check_subfunction_valid` (the `vars(cls)` loop compares attribute *names* with
-    the integer and therefore never rejects anything) -/
+/-- the integer members of `ReadDTCInformation.Subfunction` -/
+def dtcSubfunctions : List Nat :=
+  [1, 2, 3, 4, 5, 6, 7, 8, 9, 0xA, 0xB, 0xC, 0xD, 0xE, 0xF, 0x10, 0x11, 0x12, 0x13, 0x14, 0x15, 0x16, 0x17, 0x18, 0x19,
+   0x42, 0x55, 0x1A, 0x56]
+
+/-- `ReadDTCInformation.check_subfunction_valid` -/
 def checkSubfunctionValid (sf : Int) (std : Nat) : Py Unit := do
-  validateInt sf 1 0xFF
-  if subfunction2020.contains sf.toNat && std < 2020 then throw .notImpl
-  pure ()
+  validateInt sf 1 0x7F
+  guardPy (!dtcSubfunctions.contains sf.toNat) .valueErr
+  guardPy (subfunction2020.contains sf.toNat && decide (std < 2020)) .notImpl
 
 def validEditions : List Nat := [2006, 2013, 2020]
 
